@@ -524,14 +524,85 @@ def _impl_chunk(lines):
 
 
 def impl_many(lines: list[str], procs: int | None = None) -> list[str]:
-    """run the real code on every line (pure per line), in parallel when it pays off"""
+    """run the real code on every line (pure per line), in parallel when it pays off.
+    A worker that crashes or hangs (a broken implementation can recurse for ever or loop) must not hang or abort the
+    check: the chunk is bisected in fresh single-worker pools until the offending line is isolated; that line is
+    answered `err crashed-or-hung`, which no model answer ever equals."""
     import ops
     if len(lines) < 4000:
-        return [ops.run_line(l) for l in lines]
+        return _guarded(lines)
+    from concurrent.futures import ProcessPoolExecutor
+    from concurrent.futures.process import BrokenProcessPool
     import multiprocessing as mp
     procs = procs or min(16, os.cpu_count() or 1)
     size = max(500, len(lines) // (procs * 4))
     chunks = [lines[i:i + size] for i in range(0, len(lines), size)]
-    with mp.get_context("fork").Pool(procs) as pool:
-        res = pool.map(_impl_chunk, chunks)
-    return [x for c in res for x in c]
+    results: list = [None] * len(chunks)
+    try:
+        with ProcessPoolExecutor(procs, mp_context=mp.get_context("fork")) as ex:
+            futs = [ex.submit(_impl_chunk, c) for c in chunks]
+            for k, f in enumerate(futs):
+                try:
+                    results[k] = f.result(timeout=CHUNK_TIMEOUT)
+                except Exception:  # noqa: BLE001  (BrokenProcessPool, TimeoutError)
+                    results[k] = None
+                    if isinstance(f.exception(timeout=0) if f.done() else None, BrokenProcessPool):
+                        break
+    except Exception:  # noqa: BLE001
+        pass
+    for k, r in enumerate(results):
+        if r is None:
+            results[k] = _bisect(chunks[k])
+    return [x for c in results for x in c]
+
+
+CHUNK_TIMEOUT = 900
+
+
+def _guarded(lines: list[str]) -> list[str]:
+    """small batches run in-process; a hang here would hang the check, so give them a wall-clock alarm"""
+    import ops
+    import signal
+
+    class _TO(BaseException):
+        pass
+
+    def _h(signum, frame):
+        raise _TO()
+    out = []
+    old = signal.signal(signal.SIGALRM, _h)
+    try:
+        for l in lines:
+            signal.alarm(120)
+            try:
+                out.append(ops.run_line(l))
+            except _TO:
+                out.append("err crashed-or-hung")
+            except RecursionError:
+                out.append("err crashed-or-hung")
+            finally:
+                signal.alarm(0)
+    finally:
+        signal.signal(signal.SIGALRM, old)
+    return out
+
+
+def _bisect(lines: list[str], timeout: int = 300) -> list[str]:
+    from concurrent.futures import ProcessPoolExecutor
+    import multiprocessing as mp
+    ex = ProcessPoolExecutor(1, mp_context=mp.get_context("fork"))
+    try:
+        r = ex.submit(_impl_chunk, lines).result(timeout=timeout)
+        ex.shutdown(wait=False)
+        return r
+    except Exception:  # noqa: BLE001
+        for p in list(getattr(ex, "_processes", {}).values()):
+            try:
+                p.kill()
+            except Exception:  # noqa: BLE001
+                pass
+        ex.shutdown(wait=False, cancel_futures=True)
+    if len(lines) == 1:
+        return ["err crashed-or-hung"]
+    mid = len(lines) // 2
+    return _bisect(lines[:mid], max(30, timeout // 2)) + _bisect(lines[mid:], max(30, timeout // 2))
